@@ -2,7 +2,7 @@
    A builder call is (slot, tag image): slot = the tag type number of the method's parameter type
    (3 add_module, 13 add_smbios, 22 add_custom_tag).  wf_img: a tag image as the constructors and
    new_boxed produce them (size >= 8, length = size rounded up to 8) - see C07 / C16. *)
-Require Import Bytes Outcome Layout Common TagType Mbi MbiTags Build WalkSpec C16Proofs C06Proofs.
+Require Import Bytes Outcome Layout Common TagType Mbi MbiTags Build WalkSpec Mb2Spec CastFacts BuildFacts C16Proofs C06Proofs C07Proofs.
 Open Scope list_scope.
 Open Scope N_scope.
 
@@ -43,3 +43,26 @@ Theorem C06_roundtrip : forall a slices,
                  slice img off (len t) = t).
 Proof. exact built_image_props. Qed.
 Print Assumptions C06_roundtrip.
+
+(* the hypothesis wf_img is what the constructors deliver (the only way safe code obtains tag values):
+   every boxed and every sized constructor result is a well-formed image ... *)
+Theorem C06_boxed_wf : forall p k slices pad img, is_dst k = true -> 8 + content_len slices < pow2_32 -> 8 <= len pad ->
+  boxed p k slices pad = Val img -> wf_img img.
+Proof. exact boxed_wf. Qed.
+Print Assumptions C06_boxed_wf.
+
+Theorem C06_sized_wf : forall k args pad,
+  is_dst k = false ->
+  Forall2 (fun ow v => fval_ok (snd ow) v) (spec_mbi_fields (kind_typ k)) args ->
+  sd_size_of (kind_struct k) <= len pad ->
+  wf_img (ctor_sized k args pad).
+Proof. exact sized_wf. Qed.
+Print Assumptions C06_sized_wf.
+
+(* ... and the tags a builder retains are among the supplied ones, so a property of all supplied tags
+   (e.g. wf_img) holds of all retained tags *)
+Theorem C06_retained_subset : forall calls b' (P : list byte -> Prop),
+  (forall img, In (22, img) calls -> is_custom_img img = true) ->
+  run_calls builder_new calls = Val b' -> Forall P (map snd calls) -> Forall P (builder_slices b').
+Proof. exact retained_subset. Qed.
+Print Assumptions C06_retained_subset.
